@@ -160,11 +160,14 @@ Definition fpow (x y : f64) : option f64 :=
         let pe := e * Z.abs k in
         (* libm's pow is not guaranteed to be correctly rounded: the result is modelled only
            when it is exact (or overflows), which every implementation returns exactly *)
+        (* a negative power is exact only when the mantissa is a power of two: x = +-2^j gives
+           +-2^(-j*|k|), built directly (a division of such operands takes minutes in vm_compute);
+           [S754_nan] stands for "not modelled" and is rejected below *)
+        let lg := Z.log2 (Zpos m) in
         let r := if 0 <? k then fnorm (if sr then - pm else pm) pe sr
-                 else match pm with
-                      | Zpos p => fdiv (S754_finite sr 1 0) (S754_finite false p pe)
-                      | _ => S754_nan
-                      end in
+                 else if (Zpos m =? 2 ^ lg) && (-1074 <=? - (e + lg) * Z.abs k)
+                      then fnorm (if sr then -1 else 1) (- (e + lg) * Z.abs k) sr
+                      else S754_nan in
         match r with
         | S754_infinity _ => Some r
         | S754_finite _ m' e' =>
@@ -180,7 +183,24 @@ Definition fpow (x y : f64) : option f64 :=
         if 0 <? k then Some (S754_infinity (s && Z.odd k)) else Some (S754_zero (s && Z.odd k))
       | S754_nan => Some S754_nan
       end
-    else None
+    else
+      (* |k| > 1100: the cases every implementation returns exactly - a magnitude of exactly 1, certain
+         overflow (|x| >= 2) and certain underflow (|x| <= 1/2), zeros and infinities *)
+      let sr := (match x with S754_finite s _ _ | S754_zero s | S754_infinity s => s | S754_nan => false end)
+                && Z.odd k in
+      match x with
+      | S754_finite _ _ _ =>
+        let a := fabs x in
+        if same_f64 a fone then Some (if sr then fneg fone else fone)
+        else if fleb (S754_finite false 4503599627370496 (-51)) a then           (* 2 <= |x| *)
+          Some (if 0 <? k then S754_infinity sr else S754_zero sr)
+        else if fleb a (S754_finite false 4503599627370496 (-53)) then           (* |x| <= 1/2 *)
+          Some (if 0 <? k then S754_zero sr else S754_infinity sr)
+        else None
+      | S754_zero _ => if 0 <? k then Some (S754_zero sr) else Some (S754_infinity sr)
+      | S754_infinity _ => if 0 <? k then Some (S754_infinity sr) else Some (S754_zero sr)
+      | S754_nan => Some S754_nan
+      end
   else None.
 
 (** * decimal rendering *)
